@@ -3,17 +3,21 @@
 EXTENDS Handshake, Json
 CONSTANTS MaxBudget, MaxExtras
 VARIABLE s
-Kinds == {"ok", "fail", "noresult", "nooh", "noapps", "unsupapps", "silence", "eof"}
+Kinds == {"ok", "fail", "noresult", "nooh", "noapps", "unsupapps", "vsaunsup", "vsaok", "silence", "eof"}
 Extras == {"dupok", "latefail", "latemalformed"}
 Seqs(S, n) == UNION {[1..k -> S] : k \in 0..n}
 \* stall: milliseconds the transport takes to accept each CER (back-pressure); the spacing is
 \* measured between the ends of the writes.  redial: the same client / state machine has
 \* completed an earlier dial from another local address.
-Init == s \in {[budget |-> b, interval |-> 40, kind |-> k, at |-> a, extras |-> <<>>, stall |-> 0, redial |-> FALSE] :
+Init == s \in {[budget |-> b, interval |-> 40, kind |-> k, at |-> a, extras |-> <<>>, stall |-> 0, redial |-> FALSE, shared |-> FALSE] :
                   b \in 0..MaxBudget, k \in Kinds, a \in 1..(MaxBudget + 1)}
-         \cup {[budget |-> b, interval |-> 40, kind |-> k, at |-> b + 1, extras |-> <<>>, stall |-> 25, redial |-> r] :
+         \cup {[budget |-> b, interval |-> 40, kind |-> k, at |-> b + 1, extras |-> <<>>, stall |-> 25, redial |-> r, shared |-> FALSE] :
                   b \in 1..MaxBudget, k \in {"ok", "silence", "fail"}, r \in BOOLEAN}
-         \cup {[budget |-> 0, interval |-> 40, kind |-> "ok", at |-> 1, extras |-> <<>>, stall |-> 0, redial |-> TRUE]}
+         \* shared: another connection of the same client (and state machine) is up, and its peer repeats
+         \* its CEA there while this dial is waiting: this dial's outcome depends on its own peer only
+         \cup {[budget |-> b, interval |-> 40, kind |-> k, at |-> a, extras |-> <<>>, stall |-> 0, redial |-> FALSE, shared |-> TRUE] :
+                  b \in 0..1, k \in {"ok", "fail", "silence", "unsupapps"}, a \in 1..2}
+         \cup {[budget |-> 0, interval |-> 40, kind |-> "ok", at |-> 1, extras |-> <<>>, stall |-> 0, redial |-> TRUE, shared |-> FALSE]}
 Next == /\ s.kind = "ok" /\ Answers(s) /\ Len(s.extras) < MaxExtras
         /\ \E x \in Extras : s' = [s EXCEPT !.extras = Append(@, x)]
 Canon == (s.kind = "silence" => (s.at = 1 \/ s.stall > 0)) /\ s.at <= s.budget + 1
